@@ -2262,6 +2262,10 @@ def token_iter(ctx: "Wtp", text: str) -> Iterator[tuple[bool, str]]:
             new_parts.append(tp)
         text = "".join(new_parts)
 
+    # An end tag may have whitespace (also newlines) before its ">"; tokens
+    # are matched line by line, so normalise that here as is done for the
+    # inside of start tags above
+    text = re.sub(r"(</[-a-zA-Z0-9]+)\s+>", r"\1>", text)
     lines = re.split(r"(\n+)", text)  # Lines and separators
     parts_re = re.compile(r"('{2,})")
     for line in lines:
